@@ -1,5 +1,5 @@
 (* C04 - Concurrent requests behave as if processed one at a time. *)
-From Chihaya Require Import Model.History Model.Conc Model.Locks Model.MemLocks Proofs.MemP Proofs.RedisP Proofs.ConcP Proofs.LocksP Proofs.MemLocksP Proofs.SearchP.
+From Chihaya Require Import Model.History Model.Conc Model.Locks Model.MemLocks Proofs.MemP Proofs.RedisP Proofs.ConcP Proofs.LocksP Proofs.MemLocksP Proofs.SearchP Proofs.SpecP.
 From Chihaya Require Glue.G04.
 Open Scope Z_scope.
 
@@ -208,3 +208,13 @@ Theorem C04_search_hint_irrelevant :
     G04.search fuel clock keys entries post entries2 hint st ths = G04.search fuel clock keys entries post entries2 hint' st ths.
 Proof. exact search_hint_irrelevant. Qed.
 Print Assumptions C04_search_hint_irrelevant.
+
+(* ---- the membership updates of two announces of different peers (or on different swarms) commute: whatever order their
+   post-response processing runs in (each frontend starts it in a goroutine of its own), every swarm ends up the same *)
+Theorem C04_announce_updates_commute :
+  forall (a1 a2 : ann) clock (sp : spec) ih v6,
+    (a_ih a1, a_v6 a1, a_key a1) <> (a_ih a2, a_v6 a2, a_key a2) ->
+    swarm_of (swarm_interaction spec_if a1 clock (swarm_interaction spec_if a2 clock sp)) ih v6 =
+    swarm_of (swarm_interaction spec_if a2 clock (swarm_interaction spec_if a1 clock sp)) ih v6.
+Proof. exact announce_updates_commute. Qed.
+Print Assumptions C04_announce_updates_commute.
